@@ -126,6 +126,7 @@ const NeverUUID = "00000000-0000-4000-8000-000000000000"
 // NewWorld opens a fresh database under cfg on a fresh vfs and creates the schema.
 func NewWorld(cfg Cfg, prop string) *World {
 	w := &World{Cfg: cfg, FS: vfs.New(), Root: dbRoot, M: NewModel(), Ever: map[string]bool{}, Dead: map[string]bool{}, prop: prop}
+	w.M.UniqueP = cfg.Index == 3
 	vfs.Cur = w.FS
 	w.FS.LogOn = true
 	sod.LowercaseNames = cfg.Lower
@@ -374,7 +375,7 @@ func (w *World) expectMany(objs []sod.Object, recs []*Rec) string {
 			}
 			ec := cloneRec(e.r)
 			canon(ec)
-			if ec.K == c.K || ec.N == c.N {
+			if w.M.clash(ec, c) {
 				return eUnique
 			}
 		}
